@@ -30,6 +30,7 @@ def main(tier):
     chk.run("R-ATTRVALUES", V.attrvalues, r, floor=4)
     chk.run("R-DEPORDER", B.deporder, r, clauses=("text",), floor=3)
     chk.run("R-TEXTNAME", B.textname, r, floor=2)
+    chk.run("R-TOPOGUARD", DR.topoguard, r, floor=6)
     chk.run("R-DEPTWIN", P.deptwin, r, s, cx.sites, floor=2)
     chk.run("R-IFACE", C.iface, cx.cpp, cx.templates, floor=80)
     chk.run("R-GUARDDEPS", C.guarddeps, cx.cpp, floor=2)
